@@ -317,6 +317,7 @@ class Engine:
                 st["aborts"] += 1
             except Unsupported as exc:
                 st["unsupported"] += 1
+                st["complete"] = False      # a concretised path is not a discharged path
                 st["paths"] += 1
                 on_path(self, ("unsupported", _str(exc.args[0]) if exc.args else ""))
             except PathLimit:
@@ -380,6 +381,18 @@ def _parts(x):
     if type(x) is SymBool:
         return _parts(x.as_int())
     raise Unsupported("cannot lift %s" % type(x).__name__)
+
+
+def _isnum(x):
+    t = type(x)
+    return t is SymInt or t is _int or t is _float or t is bool or t is SymBool or _isinstance(x, (_int, _float))
+
+
+def realise(x):
+    """fork on every value of a small-domain symbolic integer"""
+    if type(x) is SymInt:
+        return x.__index__()
+    return x
 
 
 def _mk(lin, c, v, isf):
@@ -550,6 +563,8 @@ class SymInt:
         return ENG.z3_of(self.lin, self.c)
 
     def __add__(self, o):
+        if type(o) is SymRatio or not _isnum(o):
+            return NotImplemented
         lo, co, vo, fo = _parts(o)
         if not lo:
             return SymInt(self.lin, self.c + co, self.v + vo, self.isf or fo)
@@ -561,6 +576,8 @@ class SymInt:
     __radd__ = __add__
 
     def __sub__(self, o):
+        if type(o) is SymRatio or not _isnum(o):
+            return NotImplemented
         lo, co, vo, fo = _parts(o)
         if not lo:
             return SymInt(self.lin, self.c - co, self.v - vo, self.isf or fo)
@@ -570,6 +587,8 @@ class SymInt:
         return _mk(lin, self.c - co, self.v - vo, self.isf or fo)
 
     def __rsub__(self, o):
+        if type(o) is SymRatio or not _isnum(o):
+            return NotImplemented
         lo, co, vo, fo = _parts(o)
         lin = dict(lo)
         for k, a in self.lin.items():
@@ -577,6 +596,8 @@ class SymInt:
         return _mk(lin, co - self.c, vo - self.v, self.isf or fo)
 
     def __mul__(self, o):
+        if type(o) is SymRatio or not _isnum(o):
+            return NotImplemented
         lo, co, vo, fo = _parts(o)
         if lo:
             # non-linear unless one side is pinned by the path
@@ -740,6 +761,8 @@ class SymInt:
     def __eq__(self, o):
         if o is None or _isinstance(o, (_str, tuple, list, dict)):
             return False
+        if type(o) is SymRatio:
+            return NotImplemented
         try:
             return _cmp(self, o, "eq")
         except Unsupported:
@@ -750,6 +773,8 @@ class SymInt:
     def __ne__(self, o):
         if o is None or _isinstance(o, (_str, tuple, list, dict)):
             return True
+        if type(o) is SymRatio:
+            return NotImplemented
         try:
             return _cmp(self, o, "ne")
         except Unsupported:
@@ -758,15 +783,23 @@ class SymInt:
             return NotImplemented
 
     def __lt__(self, o):
+        if type(o) is SymRatio:
+            return NotImplemented
         return _cmp(self, o, "lt")
 
     def __le__(self, o):
+        if type(o) is SymRatio:
+            return NotImplemented
         return _cmp(self, o, "le")
 
     def __gt__(self, o):
+        if type(o) is SymRatio:
+            return NotImplemented
         return _cmp(self, o, "gt")
 
     def __ge__(self, o):
+        if type(o) is SymRatio:
+            return NotImplemented
         return _cmp(self, o, "ge")
 
     def __bool__(self):
@@ -808,16 +841,128 @@ class SymInt:
 
 
 def ENG_truediv(a, o):
-    """a / o: exact only when the result is integral by construction."""
+    """a / o for integral a and a constant integral o: exact when divisible,
+    otherwise an exact rational proxy (float-typed in Python terms)."""
     lo_, k, vo, fo = _parts(o)
     if lo_ or k == 0:
-        raise Unsupported("true division")
+        raise Unsupported("true division by a symbolic or zero divisor")
+    if k < 0:
+        a, k = -a, -k
     for co in a.lin.values():
         if co % k:
-            raise Unsupported("inexact true division")
+            return SymRatio(a, k)
     if a.c % k:
-        raise Unsupported("inexact true division")
+        return SymRatio(a, k)
     return SymInt({n: co // k for n, co in a.lin.items()}, a.c // k, a.v // k, True)
+
+
+class SymRatio:
+    """num / den (den > 0 constant): the value of an int/int true division.
+    Sound for |num| < 2**52 / den (the double nearest to num/den then has the
+    same floor, trunc and ordering against integers as the exact rational)."""
+    __slots__ = ("num", "den")
+    isf = True
+
+    def __init__(self, num, den):
+        self.num = num
+        self.den = den
+
+    @property
+    def v(self):
+        return conc(self.num) / self.den
+
+    def trunc(self):
+        n = self.num
+        if n >= 0:
+            return n // self.den
+        return -((-n) // self.den)
+
+    def __floor__(self):
+        return self.num // self.den
+
+    def __abs__(self):
+        return SymRatio(abs(self.num), self.den)
+
+    def __neg__(self):
+        return SymRatio(-self.num, self.den)
+
+    def _other(self, o):
+        if type(o) is SymRatio:
+            if o.den != self.den:
+                raise Unsupported("ratio arithmetic with different denominators")
+            return o.num
+        lo_, c, v, f = _parts(o)
+        return (SymInt(lo_, c, v, False) if lo_ else c) * self.den
+
+    def __add__(self, o):
+        return _ratio(self.num + self._other(o), self.den)
+
+    __radd__ = __add__
+
+    def __sub__(self, o):
+        return _ratio(self.num - self._other(o), self.den)
+
+    def __rsub__(self, o):
+        return _ratio(self._other(o) - self.num, self.den)
+
+    def __mul__(self, o):
+        lo_, c, v, f = _parts(o)
+        if lo_:
+            raise Unsupported("non-linear ratio multiplication")
+        return _ratio(self.num * c, self.den)
+
+    __rmul__ = __mul__
+
+    def __truediv__(self, o):
+        lo_, c, v, f = _parts(o)
+        if lo_ or c <= 0:
+            raise Unsupported("ratio division")
+        return SymRatio(self.num, self.den * c)
+
+    def __eq__(self, o):
+        if o is None or _isinstance(o, _str):
+            return False
+        return self.num == self._other(o)
+
+    def __ne__(self, o):
+        if o is None or _isinstance(o, _str):
+            return True
+        return self.num != self._other(o)
+
+    def __lt__(self, o):
+        return self.num < self._other(o)
+
+    def __le__(self, o):
+        return self.num <= self._other(o)
+
+    def __gt__(self, o):
+        return self.num > self._other(o)
+
+    def __ge__(self, o):
+        return self.num >= self._other(o)
+
+    def __bool__(self):
+        return bool(self.num != 0)
+
+    def is_integer(self):
+        return bool(self.num % self.den == 0)
+
+    def __hash__(self):
+        raise Unsupported("hash of symbolic ratio")
+
+    def __repr__(self):
+        return "SymRatio(%r/%d)" % (self.num, self.den)
+
+
+def _ratio(num, den):
+    if type(num) is not SymInt:
+        return num / den
+    for co in num.lin.values():
+        if co % den:
+            return SymRatio(num, den)
+    if num.c % den:
+        return SymRatio(num, den)
+    return SymInt({n: co // den for n, co in num.lin.items()}, num.c // den, num.v // den, True)
 
 
 class MBool:
@@ -981,6 +1126,8 @@ class _IntShim:
             return SymInt(x.lin, x.c, x.v, False)
         if type(x) is SymBool:
             return x.as_int()
+        if type(x) is SymRatio:
+            return x.trunc()
         if a:
             return _int(x, *a)
         r = sym_int_hook(x)
@@ -1001,6 +1148,8 @@ class _FloatShim:
     def __call__(self, x=0.0):
         if type(x) is SymInt:
             return SymInt(x.lin, x.c, x.v, True)
+        if type(x) is SymRatio:
+            return x
         r = sym_float_hook(x)
         if r is not NotImplemented:
             return r
@@ -1029,7 +1178,7 @@ def sym_isinstance(x, t):
     if t is INT or t is _int:
         return _isinstance(x, _int) or (type(x) is SymInt and not x.isf) or type(x) is SymBool
     if t is FLOAT or t is _float:
-        return _isinstance(x, _float) or (type(x) is SymInt and x.isf)
+        return _isinstance(x, _float) or (type(x) is SymInt and x.isf) or type(x) is SymRatio
     if t is STR:
         return _isinstance(x, _str)
     if _isinstance(t, tuple):
@@ -1043,6 +1192,8 @@ def sym_isinstance(x, t):
 def sym_floor(x):
     if type(x) is SymInt:
         return SymInt(x.lin, x.c, x.v, False)
+    if type(x) is SymRatio:
+        return x.__floor__()
     return math.floor(x)
 
 
